@@ -570,6 +570,51 @@ def construction_sites(ctx, facts, tables, cfg):
         ctx.check(n >= 3, "K6.construction", "operations are assembled only by the parser of their table (%s)" % cfg, "%d operation aggregates found (expected one per table)" % n, nontrivial=True)
 
 
+def every_parser_checks(ctx, facts, tables, cfg):
+    """K3.every-parser-checks — wherever the length check lives (in the dispatcher, in a helper of it, or in the parsers
+    that call the dispatcher), the parser of *every* table reaches it: a table whose parser builds its operation from the
+    dispatcher's answer without any way to the length check accepts every operand count.  A call-graph statement (the
+    path-precise K3 clauses are read on the dispatcher when the check sits there)."""
+    descs = [a for a, d in facts.adts.items() if d["kind"] == "enum" and {"Exactly", "AtLeast", "Variadic"} <= {v["name"] for v in d["variants"]}]
+    if len(descs) != 1:
+        return
+    checks = {k for k, it in facts.items.items() if it.get("kind") == "fn" and len(it.get("inputs") or []) == 2 and it["inputs"][0].lstrip("&").endswith(descs[0])
+              and (it.get("output") or "").startswith("std::result::Result<")}
+    preds = {k for k, it in facts.items.items() if it.get("kind") == "fn" and len(it.get("inputs") or []) == 2 and it["inputs"][0].lstrip("&").endswith(descs[0]) and it.get("output") == "bool"}
+    is_len = lambda k: "usize" in ((facts.items.get(k, {}).get("inputs") or ["", ""])[1])
+    anchors = {k for k in checks if is_len(k)} or {k for k in preds if is_len(k)}
+    if not anchors:
+        return
+    table_fns = {e.fn_key for t_ in tables for e in t_.entries}
+    cg_, _ = facts.callgraph()
+
+    def direct_reach(root):
+        """Functions the parser can call directly (calls and closures; not through the tables' constants, whose
+        mention of every operator is no call, and not into the operators)."""
+        seen, todo = set(), [root]
+        while todo:
+            k = todo.pop()
+            if k in seen or k in table_fns:
+                continue
+            seen.add(k)
+            bb = facts.body(k)
+            if bb is None or bb.kind not in ("fn", "closure"):
+                continue
+            for n_ in cg_.get(k, ()):
+                nb_ = facts.body(n_)
+                if nb_ is not None and nb_.kind in ("fn", "closure"):      # calls, closures, function items used as values
+                    todo.append(n_)
+        return seen
+    for t in tables:
+        if not t.operation_impl:
+            continue
+        fv = t.operation_impl[0]
+        reach = direct_reach(fv)
+        ctx.check(bool(reach & anchors), "K3.every-parser-checks", "the parser of the %s table reaches the length check (%s)" % (t.role, cfg),
+                  "the parser of the %s table (%s) cannot reach the length check %s: its operators are run with any number of operands" % (t.role, fv.split("::", 1)[1], sorted(x.split("::", 1)[1] for x in anchors)),
+                  where=facts.body(fv).where() if facts.body(fv) else "", fn=fv, nontrivial=True)
+
+
 def run(ctx):
     ctx.level = "proof"
     ctx.explanation = __doc__
@@ -582,6 +627,7 @@ def run(ctx):
         reject_through_option(ctx, facts, cfg)
         tables = T.read_tables(facts)
         construction_sites(ctx, facts, tables, cfg)
+        every_parser_checks(ctx, facts, tables, cfg)
         disp = Dispatcher(facts)
         roles = find_roles(facts, tables, disp)
         adt = roles["adt"]
